@@ -69,7 +69,8 @@ fuzz_target!(|data: &[u8]| {
     if r.is_err() {
         let sig = LAST.with(|c| c.borrow().clone());
         if let Ok(path) = std::env::var("O2O_FUZZ_LOG") {
-            if let Ok(mut f) = std::fs::OpenOptions::new().create(true).append(true).open(path) {
+            // one log per forked worker: concurrent appends to one file would interleave
+            if let Ok(mut f) = std::fs::OpenOptions::new().create(true).append(true).open(format!("{}.{}", path, std::process::id())) {
                 let _ = writeln!(f, "{}\t{}", sig, s.replace('\n', " "));
             }
         }
